@@ -39,3 +39,21 @@ def f13_grammar():
 F14_RULES = {"S": [[], ["A", "A"]], "A": [["S", "A"], ["A", "A"]]}
 
 F12_TEXT = 'grammar; extern { enum Tok { "a" => Tok::A } } M<X>: () = { M<(X X)> => (), "a" => () }; pub S: () = M<"a">;\n'
+
+
+def f6_grammar():
+    """annotated E with levels 1 and 2, referenced from S; renaming S to `E1` collides with the
+    generated level nonterminal"""
+    def named(syms):
+        names = ["x", "y", "z"]
+        return Alt([Item(s, ("name", names[i], False)) for i, s in enumerate(syms)], action="named")
+    a1 = named([T("n")])
+    a1.prec = (1, None)
+    a2 = named([N("E"), T("+"), N("E")])
+    a2.prec = (2, "left")
+    g = Grammar([
+        NT("S", [named([N("E"), T(";")])], ty="V", pub=True),
+        NT("E", [a1, a2], ty="V"),
+    ], ["n", "+", ";"])
+    gen._assign_pids(g)
+    return g
